@@ -28,6 +28,8 @@ STUBS = ["md.parse / token streams built directly", "MockStateMachine/MockState 
 NONTRIVIAL_RULE = "paths with at least one nesting (a section with a section parent), skip warning or rubric"
 
 PLACES = ["top", "top+p", "quote", "item", "nested", "nested-titles"]
+# directive bodies are nested parses into the directive's node; docutils classes topic and sidebar as Structural, admonitions/containers as Body elements
+NESTED_NODE = {"nested": "container", "nested-topic": "topic", "nested-sidebar": "sidebar", "nested-note": "note", "nested-figure": "figure"}
 
 
 def setup():
@@ -42,9 +44,9 @@ def tag_of(levelchar):
     return join("", ["h", levelchar])
 
 
-def make_seq(eng, k, places, offset_max=0):
+def make_seq(eng, k, places, offset_max=0, levels="123456"):
     setup()
-    lv = [new_str(eng, "lv%d" % i, 1, alphabet="123456") for i in range(k)]
+    lv = [new_str(eng, "lv%d" % i, 1, alphabet=levels) for i in range(k)]
     pl = [new_int(eng, "pl%d" % i, 0, len(places) - 1) for i in range(k)]
     off = new_int(eng, "offset", 0, offset_max) if offset_max else 0
     eng.witness_fn = lambda m: {"levels": [int(eng.eval_model(m, x)) for x in lv], "places": [places[eng.eval_model(m, p)] for p in pl], "offset": eng.eval_model(m, off) if offset_max else 0}
@@ -64,7 +66,7 @@ def make_seq(eng, k, places, offset_max=0):
         if err:
             eng.fail(err[0], err[1])
         eng.passed(8)
-        if any(p not in ("top", "top+p") for p in ps) or any(b > a for a, b in zip(levels, levels[1:])):
+        if any(p not in ("top", "top+p", "top+note") for p in ps) or any(b > a for a, b in zip(levels, levels[1:])):
             eng.note("structure")
         return "ok"
 
@@ -83,12 +85,14 @@ def run_program(R, ctx, levelchars, places, offset):
         toks = []
         for i, (lc, p) in enumerate(zip(levelchars, places)):
             toks += item_tokens(i, lc, p)
-        r.md.parse = lambda text, env: toks
+        real_parse = r.md.parse
+        r.md.parse = lambda text, env: toks if text.startswith("included") else real_parse(text, env)
         r.nested_render_text("included", 0, heading_offset=offset)
         return
     for i, (lc, p) in enumerate(zip(levelchars, places)):
-        if p in ("nested", "nested-titles"):
-            cont = nodes.container()
+        if p in NESTED_NODE or p == "nested-titles":
+            cont = NESTED_NODE.get(p, "container")
+            cont = getattr(nodes, cont)()
             cont["ids"] = ["cont%d" % i]
             r.current_node.append(cont)
             inner = CR.heading(tag_of(lc), 0, "h%d" % i) + CR.paragraph(2, "np%d" % i)
@@ -110,6 +114,9 @@ def item_tokens(i, lc, p):
         return h
     if p == "top+p":
         return CR.paragraph(line, "p%d" % i) + h + CR.paragraph(line + 3, "q%d" % i)
+    if p == "top+note":
+        # a heading followed by a real {note} directive: its body is a nested render with heading_offset 0 (tokenised natively)
+        return h + CR.fence(line + 3, "{note}", "nb%d\n" % i)
     if p == "quote":
         return CR.blockquote(line, h, 3)
     if p == "item":
@@ -131,7 +138,7 @@ def check_structure(ctx, levels, places, offset):
     cur = "doc"  # name of the current outer section (where containers are appended)
     for i, (L, p) in enumerate(zip(levels, places)):
         name = "h%d" % i
-        if p in ("top", "top+p"):
+        if p in ("top", "top+p", "top+note"):
             lvl = L + offset
             while stack and stack[-1][0] >= lvl:
                 stack.pop()
@@ -142,7 +149,7 @@ def check_structure(ctx, levels, places, offset):
             stack.append((lvl, name))
             cur = name
             order.append(name)
-        elif p in ("quote", "item", "nested"):
+        elif p in ("quote", "item") or p in NESTED_NODE:
             exp_rubric[name] = (L + offset, cur)
         else:  # nested-titles: judged only through the surrounding structure
             pass
@@ -229,8 +236,13 @@ def families(tier, seed):
         F.append(Family("top/K%d" % k, make_seq, "all sequences of %d top-level headings (with/without surrounding paragraphs), levels symbolic 1-6" % k,
                         args=dict(k=k, places=["top", "top+p"] if k <= 3 else ["top"]), nontrivial="structure", max_forks=200000, required=(k <= (4 if q else 5))))
     for k in ([2, 3] if q else [3, 4]):
-        F.append(Family("mixed/K%d" % k, make_seq, "all sequences of %d headings, each at top level, in a block quote, in a list item or in a nested parse (match_titles on/off)" % k,
-                        args=dict(k=k, places=PLACES), nontrivial="structure", max_forks=200000, required=(k <= 3)))
+        F.append(Family("mixed/K%d" % k, make_seq, "all sequences of %d headings (levels 1-4 for K3 in the quick tier), each at top level, in a block quote, in a list item or in a nested parse (match_titles on/off)" % k,
+                        args=dict(k=k, places=PLACES, levels="1234" if (q and k >= 3) else "123456"), nontrivial="structure", max_forks=200000, required=(k <= 3)))
+    for k in ([3] if q else [3, 4]):
+        F.append(Family("bodies/K%d" % k, make_seq, "%d headings (levels 1-4 in the quick tier), each at top level or in the body of a directive whose node is a topic / sidebar / note / figure (nested parse without match_titles)" % k,
+                        args=dict(k=k, places=["top", "nested-topic", "nested-sidebar", "nested-note"] + ([] if q else ["nested-figure"]), levels="1234" if q else "123456"), nontrivial="structure", max_forks=200000, required=(k <= 3)))
+        F.append(Family("offset+body/K%d" % k, make_seq, "%d headings inside an include with heading_offset 1..2, each optionally followed by a {note} directive (nested render with offset 0 inside the offset render)" % k,
+                        args=dict(k=k, places=["top", "top+note"], offset_max=2, levels="1234" if q else "123456"), nontrivial="structure", max_forks=200000, required=(k <= 3)))
     for k in ([3] if q else [3, 4]):
         F.append(Family("offset/K%d" % k, make_seq, "%d headings rendered through nested_render_text with heading_offset 1..3 (include), levels 1-6 => effective levels up to 9" % k,
                         args=dict(k=k, places=["top"], offset_max=3), nontrivial="structure", max_forks=200000))
